@@ -6,9 +6,18 @@ def nontrivial(tok, res):
         return res.startswith("fwd:") or res == "401"
     if tok[0] == "mreq":
         return res.startswith("acc:") or res == "407"
-    if tok[0] in ("mw", "pl", "plc"):
+    if tok[0] in ("mw", "pl", "plc", "wq", "s5"):
         return True
+    if tok[0] == "wflush":
+        return res != "-"
     return False
+
+
+def result_class(r):
+    toks = r.split(",")
+    if all(len(t) == 4 and t[:3].isdigit() for t in toks):   # web ops: the set of status codes of the requests
+        return "+".join(sorted({t[:3] for t in toks}))
+    return r.split(":")[0] if "," not in r else "seq"
 
 
 PROP = {
@@ -26,46 +35,84 @@ PROP = {
         "Frp.C07.pluginServeHTTP_reaches", "Frp.C07.pluginHandleConnect_reaches",
         "Frp.C07.pluginServeConn_sound", "Frp.C07.pluginHandle_sound", "Frp.C07.pluginHandle_refuses",
         "Frp.C07.pluginHandle_first_connect_refused", "Frp.C07.plHoldsOn_sound", "Frp.C07.model_plHoldsOn",
+        # web endpoints from the header bytes: parseBasicAuth + base64 + HTTPAuthMiddleware, gorilla/mux router,
+        # static_file plugin, frps dashboard, frpc admin API; socks5 plugin
+        "Frp.C07.cutColon_some", "Frp.C07.cutColon_append", "Frp.C07.basicAuth_some",
+        "Frp.C07.middlewareHdr_sound", "Frp.C07.middlewareHdr_complete", "Frp.C07.middlewareHdr_encoded",
+        "Frp.C07.middlewareHdr_same_payload", "Frp.C07.nodesMatch_guarded", "Frp.C07.webServe_sound",
+        "Frp.C07.webServe_refuses", "Frp.C07.staticFile_sound", "Frp.C07.staticFile_wire_sound",
+        "Frp.C07.staticFile_method", "Frp.C07.dashboard_sound", "Frp.C07.admin_sound",
+        "Frp.C07.webHoldsOn_sound", "Frp.C07.model_webHoldsOn", "Frp.C07.mwHoldsOn_sound", "Frp.C07.model_mwHoldsOn",
+        "Frp.C07.socks5_sound", "Frp.C07.socks5_refuses", "Frp.C07.s5HoldsOn_sound", "Frp.C07.model_s5HoldsOn",
     ],
     "engines": [
-        {"name": "httpauth", "quick_n": 4000, "thorough_n": 20000, "thorough_seeds": 5,
+        {"name": "httpauth", "quick_n": 5000, "thorough_n": 20000, "thorough_seeds": 5,
          "nontrivial": nontrivial,
-         "result_class": lambda r: r.split(":")[0] if "," not in r else "seq"},
+         "result_class": result_class},
     ],
     "rule": "httpauth engine: generated route tables mixing protected / unprotected / user-routed proxies on the "
             "same hosts with default, root, nested and sibling locations; requests in origin-form, absolute-form "
             "and CONNECT whose target path is written on the wire from ordinary paths, 1-4 segments drawn from "
             "names / dot segments / empty segments / percent-encoded letters, dots and separators, and malformed "
             "escapes, with every combination of Authorization / Proxy-Authorization (absent, well-formed in three "
-            "scheme casings, five malformed kinds), sent over TCP to a real http.Server{Handler: HTTPReverseProxy} "
-            "whose per-route backends report their identity (oracle: the backend of a protected route answered "
-            "=> exact credentials); a real HTTPConnectTCPMuxer; HTTPAuthMiddleware; the http_proxy plugin's Auth, "
-            "and the plugin's real Handle given one work connection carrying 1-4 requests (CONNECT in three "
-            "casings first or after GET/OPTIONS/DELETE, credentials exact / absent / malformed / other per "
+            "scheme casings, five malformed kinds, and raw header values, see below), sent over TCP to a real "
+            "http.Server{Handler: HTTPReverseProxy} whose per-route backends report their identity (oracle: the "
+            "backend of a protected route answered => exact credentials); a real HTTPConnectTCPMuxer; the http_proxy "
+            "plugin's Auth, and the plugin's real Handle given one work connection carrying 1-4 requests (CONNECT in "
+            "three casings first or after GET/OPTIONS/DELETE, credentials exact / absent / malformed / other per "
             "request) in front of a recording target (oracle: the target saw request i => request i carried the "
-            "exact credentials); non-trivial = a request that was forwarded / accepted or refused for "
-            "credentials; distinct = distinct (op line, result)",
+            "exact credentials). Web endpoints: the real HTTPAuthMiddleware in front of a recording handler (mw), "
+            "the real static_file plugin (NewStaticFilePlugin over a directory tree + Handle, one work connection "
+            "per request, with and without strip prefix), the web server of real in-process frps instances "
+            "(server.NewService, webServer.user/password, enablePrometheus on/off) and the admin server of real "
+            "frpc instances (client.NewService) receive bursts of 20-60 queued requests (wq … / wflush): methods "
+            "GET / HEAD / POST / PUT / DELETE / OPTIONS / PATCH / TRACE / PROPFIND and lower- / mixed-case "
+            "spellings; paths = every registered route, neighbours of routes, files / directories / missing files, "
+            "dot / empty / percent-encoded segments, malformed escapes; Authorization lines written byte for byte: "
+            "exact, the expected base64 text with the case of one / some / all letters changed, near-miss and other "
+            "credentials, same bytes in another base64 text, broken base64 (padding, alphabet, length), blanks "
+            "inside and around, other / truncated / glued schemes, payloads without or with extra colons, junk; "
+            "field name in four casings or Proxy-Authorization; a second Authorization line; absent. The driver "
+            "classifies each answer (401 / router's own 301-404-405 / server's 400 / a route handler answered) and "
+            "evaluates webHoldsOn (handler answered => exact credentials or a handler registered outside the "
+            "middleware on purpose, i.e. /healthz). socks5 plugin (NewSocks5Plugin + Handle) in front of the "
+            "recording target: version byte, offered methods, sub-negotiation version, user / password exact, near "
+            "miss or other, for configurations with both, only a user, only a password or neither. Non-trivial = a "
+            "request that was forwarded / accepted / served or refused for credentials; distinct = distinct (op "
+            "line, result)",
     "trusted": COMMON_TRUST + [
-        "model Frp/Model/HttpAuth.lean written by hand; header parsing (net/http BasicAuth, base64) is not "
-        "modelled: requests carry parsed credential pairs, the harness encodes them with encoding/base64",
+        "models Frp/Model/HttpAuth.lean and Frp/Model/WebAuth.lean written by hand. Header parsing IS modelled for "
+        "the middleware, static_file, dashboard, admin API (parseBasicAuth + Frp/Model/Base64.lean, textproto "
+        "trimming, Header.Get = first line) and, through raw header tokens, for the http proxies and tcpmux; the "
+        "b<k>/m<k> tokens of req / mreq / pl / plc still carry parsed pairs that the harness encodes",
         "request-target parsing is modelled as percent-decoding of the path only (net/url unescape, mode "
         "encodePath); targets with '?', '#', spaces, control or non-ASCII bytes are outside the model (skipped)",
+        "gorilla/mux v1.8.1 is modelled for the router shapes frp builds (leaf routes with a literal / {var} "
+        "template or a prefix and an optional method list, one level of sub-routers, Use on router or "
+        "sub-router, no NotFoundHandler / MethodNotAllowedHandler, skipClean off); that frp's three routers have "
+        "exactly the modelled routes is tied by the differential run over every route x method, not read from the AST",
+        "'a route handler answered' is observed from outside: any response other than 401, the router's 405 (empty "
+        "body) / 404 ('404 page not found' or empty body, no gzip marker) / 301 on an unclean path, and the "
+        "server's 400 for an undecodable target",
         "http_proxy plugin: net/http request framing on the work connection (keep-alive, hijack) is modelled as "
         "'one ServeHTTP call per request until a handler hijacks'; the first-7-bytes sniff assumes the request "
         "line arrives in one read",
-        "socks5 plugin credentials are enforced by the third-party go-socks5 library (StaticCredentials): assumed",
-        "dashboard/admin API: that every /api route sits under the sub-router using the middleware is read from "
-        "the code (server/dashboard_api.go:44, client/admin_api.go:46), not re-checked mechanically",
+        "socks5 plugin: armon/go-socks5 ServeConn / authenticate / UserPassAuthenticator / StaticCredentials are "
+        "modelled by hand (version, method selection, RFC 1929 sub-negotiation) and tied by the differential run; "
+        "the request phase after authentication (address parsing, rules, dial) is not modelled",
     ],
     "assumptions": [
         "h2c requests are not generated (HTTP/1.1 only)",
+        "web servers are driven with webServer.pprofEnable = false and without TLS; with pprofEnable = true "
+        "pkg/util/http/server.go registerPprofHandlers puts /debug/pprof/* on the outer router, outside the auth "
+        "middleware (not covered by the model, reported as an observation)",
     ],
 }
 
 META = {
     "engine": "lean+harness(httpauth)",
     "design_ref": "DESIGN.md §6 C07",
-    "technique": "Lean 4 theorems over all route tables, request targets and request sequences (decision logic stated outright) + differential correspondence against the real ServeHTTP / tcpmux muxer / middleware / http_proxy plugin Handle over TCP",
-    "text": "Proof: for every route table and every request (origin/absolute form, CONNECT, any Authorization / Proxy-Authorization combination) the modelled ServeHTTP forwards to route r only if r is unprotected or the request presents exactly r's user name and password, and the route checked is the route forwarded to; same for the tcpmux CONNECT muxer and the HTTP auth middleware. The statement is also proved at wire level (serveWire_sound: the target path is only percent-decoded; serve_forward_prefix: the route forwarded to is selected by that path as received, no dot-segment or empty-segment normalisation between check and forwarding). http_proxy plugin: the model is the dispatch of a whole work connection (Handle's CONNECT sniff -> handleConnectReq, otherwise the embedded server's ServeHTTP per request: Auth, then ConnectHandler / HTTPHandler); pluginHandle_sound proves for every request sequence that request i reaches a target only if request i itself carries the exact credentials, pluginHandle_refuses that every other request gets the 407 challenge or is refused and closed. The pinned tree violated this (witness theorem serveOld_witness, replayed on the real code) and was repaired by /repo commit 015f090; the model is of the repaired code. Tie: 4000 generated ops per quick run against the real handlers over loopback TCP (request paths with dot / empty / percent-encoded segments against tables with protected non-default locations; ~100 multi-request work connections through the plugin's Handle), with the Lean predicates (holdsOnWire, plHoldsOn) evaluated on the implementation's answers.",
-    "note": "Trusted: Lean kernel; hand-written model of ServeHTTP/CheckAuth/injectRequestInfoToCtx/Muxer.handle/HTTPConnectTCPMuxer.auth/HTTPAuthMiddleware/HTTPProxy.Handle+ServeHTTP+handleConnectReq+Auth; net/url path unescape; net/http and encoding/base64 header parsing; go-socks5 credential check; harness generators.",
+    "technique": "Lean 4 theorems over all route tables, request targets, request sequences, routers, methods, paths and header bytes (decision logic stated outright) + differential correspondence against the real ServeHTTP / tcpmux muxer / middleware / http_proxy, static_file and socks5 plugins / frps dashboard / frpc admin API over TCP",
+    "text": "Proof: for every route table and every request (origin/absolute form, CONNECT, any Authorization / Proxy-Authorization combination) the modelled ServeHTTP forwards to route r only if r is unprotected or the request presents exactly r's user name and password, and the route checked is the route forwarded to; same for the tcpmux CONNECT muxer. The statement is also proved at wire level (serveWire_sound: the target path is only percent-decoded; serve_forward_prefix: the route forwarded to is selected by that path as received, no dot-segment or empty-segment normalisation between check and forwarding). http_proxy plugin: the model is the dispatch of a whole work connection (Handle's CONNECT sniff -> handleConnectReq, otherwise the embedded server's ServeHTTP per request: Auth, then ConnectHandler / HTTPHandler); pluginHandle_sound proves for every request sequence that request i reaches a target only if request i itself carries the exact credentials, pluginHandle_refuses that every other request gets the 407 challenge or is refused and closed. Web endpoints (static_file plugin, frps dashboard, frpc admin API): the model runs from the header bytes to the handler — net/http parseBasicAuth (case-insensitive scheme, base64 decoding with the Lean base64 model, cut at the first colon), HTTPAuthMiddleware comparing the DECODED user and password, gorilla/mux ServeHTTP / Match (clean-path redirect, route loop, method mismatch, sub-routers, middlewares applied to matched routes only) and the three routers as frp builds them. middlewareHdr_sound / _complete: next runs iff the endpoint is unprotected or the header is 'Basic' (any case) + a base64 text that decodes to exactly user:password (a text that only resembles the expected one decodes to other bytes and is refused; two accepted headers decode to the same bytes); webServe_sound: for every router of the modelled shape, every method token, path and header a route handler runs only with exact credentials unless it was registered outside the middleware; staticFile_sound / staticFile_method: static_file has no such handler and only GET reaches the file handler (HEAD and everything else: the router's bare 405); dashboard_sound / admin_sound: everything but /healthz is behind the middleware. socks5 plugin: socks5_sound — with a user name or a password configured the target is dialled only after a user/password sub-negotiation carrying exactly both. The pinned tree violated the http-proxy clause (witness theorem serveOld_witness, replayed on the real code) and was repaired by /repo commit 015f090; the model is of the repaired code. Tie: 5000 generated ops per quick run against the real handlers over loopback TCP / pipes (request paths with dot / empty / percent-encoded segments against tables with protected non-default locations; ~100 multi-request work connections through the http_proxy plugin's Handle; ~1000 requests to the real static_file plugin, real frps dashboards and real frpc admin servers with generated methods, paths and raw Authorization lines; ~250 bare middleware calls; ~100 socks5 negotiations), with the Lean predicates (holdsOnWire, plHoldsOn, webHoldsOn, mwHoldsOn, s5HoldsOn) evaluated on the implementation's answers.",
+    "note": "Trusted: Lean kernel; hand-written model of ServeHTTP/CheckAuth/injectRequestInfoToCtx/Muxer.handle/HTTPConnectTCPMuxer.auth/HTTPAuthMiddleware/HTTPProxy.Handle+ServeHTTP+handleConnectReq+Auth, of net/http parseBasicAuth + textproto trimming, of gorilla/mux matching for frp's router shapes, of go-socks5 authentication; net/url path unescape; observation of 'a handler answered' from status/body class; harness generators.",
 }
